@@ -363,6 +363,10 @@ def run(ctx):
                     r.bad("count|ReadByLine", "after a stop request ReadByLine::run reports only the bytes consumed before the current "
                           "buffer: the byte count of an early-stopped search depends on how the reader fragmented its reads and "
                           "differs from the slice strategies (which report their cursor)", fn=f, loc=fin[0].loc, construct="byte_count")
+    with ctx.rule("C02.INTR", "an Interrupted read is retried in both fill loops: it cannot change the results (shared with C16.INTR)",
+                  floor=4, kind="GUARD/FLOW") as r:
+        from . import c16
+        c16.interrupted_rule(ctx, r)
     with ctx.rule("C02.NOPROGRESS", "the forced quit of ReadByLine::fill is guarded by consumed == 0 ∧ no growth", floor=1,
                   kind="GUARD") as r:
         g = facts.fn(GLUE + "::ReadByLine::fill")
